@@ -249,6 +249,10 @@ def normState (bindPort : Nat) (all : Bool) : List Val → List Val
   | [a, i, m, n, .uint p, st, v] => [a, i, m, n, .uint (if all || p == 0 then bindPort else p), st, v]
   | other => other
 
+/-- `handleAlive`: the same rule for an alive message on the packet path -/
+def alivePort (bindPort : Nat) (proto : Nat) (port : Nat) : Nat :=
+  if proto < 2 || port == 0 then bindPort else port
+
 def readRemoteState (bindPort : Nat) (all : Bool) (bs : Bytes) : Option (Bool × List (List Val) × Bytes × Bytes) :=
   (decPushPull bs).map fun (join, sts, user, rest) => (join, sts.map (normState bindPort all), user, rest)
 
